@@ -48,6 +48,9 @@ def gen_C07(rng, tier):
         (None, "import com.vendor.io.ParcelFileDescriptor;", "ParcelFileDescriptor"),
         (None, "parcelable IBinder;", "IBinder"),
         (None, "parcelable FileDescriptor;", "FileDescriptor"),
+        (None, "parcelable x.y.Foo;", "x.y.Foo"),
+        (None, "parcelable x.y.Foo;", "y.Foo"),
+        (None, "parcelable x.y.Foo;parcelable Foo;", "Foo"),
     ]
     for j, (defn, pre, ty) in enumerate(shadow):
         for iow in (False, True):
@@ -205,6 +208,11 @@ def gen_projects(rng, tier, n_quick=1500, n_thorough=20000):
         [("a", "package com.acme.\n   telemetry . /* x */ model; parcelable Sample {}"),
          ("b", "package p; import com.acme.telemetry.model.Sample; interface I { void f(in Sample s, in com . acme.telemetry.model . Sample t); }")],
         [("a", "package android.os;interface ParcelFileDescriptor{}"), ("b", "package p;import android.os.ParcelFileDescriptor;parcelable P{ParcelFileDescriptor a;android.os.ParcelFileDescriptor b;}")],
+        # forward declarations with a package path resolve nothing (not even with the file's own package), next to a plain twin
+        [("a", "package my.pkg;parcelable my.pkg.Foo;parcelable P{Foo a;Map<String,List<Foo>> b;my.pkg.Foo c;}"), ("b", "package my.pkg;parcelable Foo{}")],
+        [("a", "package p;parcelable Foo;parcelable x.y.Foo;parcelable P{Foo a;x.y.Foo b;y.Foo c;}")],
+        [("a", "package p;import pkg.Name;parcelable Name;parcelable P{List<Name> a;Map<String,Name> b;Name[] c;}"), ("b", "package pkg;enum Name{A}")],
+        [("a", "package alpha;import beta.Node;parcelable Node{Node a;beta.Node b;List<Node> c;}"), ("b", "package beta;enum Node{A}")],
         # near misses of the suffix rule: the name repeated, and more qualification than the import has
         [("a", "package p;import pkg.FooFoo;import x.a.Fooa.Foo;parcelable P{Foo a;a.Foo b;FooFoo c;}"), ("b", "package pkg;parcelable FooFoo{}")],
         [("a", "package p;import zzz.Data;import aaa.DataDataData;parcelable P{Data a;List<Data> b;Map<String,Data[]> c;}"),
@@ -251,6 +259,9 @@ def gen_C11(rng, tier):
          ("d", "package q;import p.X;interface I{void f(X a, in X b, out X c);}")],
         [("a", "package p; interface I { void f( ; }"), ("b", "package p; parcelable {"), ("c", "")],
         [("a", "package p;import q.Z;import q.Y;import q.Z;import q.W;parcelable Y;parcelable W;parcelable Y;interface I{}")],
+        [("a", "package p;import omega.inner.Item;import alpha.inner.Item;import mid.inner.Item;parcelable P{inner.Item a;List<inner.Item> b;Item c;}"),
+         ("b", "package alpha.inner;parcelable Item{}"), ("c", "package omega.inner;enum Item{A}")],
+        [("a", "package p;interface I{void a()=11;void b()=12;void c()=13;void d()=14;void e();void f();}")],
     ]
     for i, f in enumerate(fixed):
         cases.append(nm(f"fixed{i}", f))
@@ -300,6 +311,13 @@ def gen_C12(rng, tier):
         for seq in itertools.product(alphabet, repeat=L):
             cases.append({"name": f"ex{k}", "ops": list(seq)})
             k += 1
+    # an id whose path is not canonical (`sub/../i0` names the same file as `i0` on disk, but it is another id)
+    odd = "sub/../i0"
+    for seq in [[("addfile", odd, "ok", CONTENTS[1])], [("add", odd, CONTENTS[0]), ("addfile", odd, "ok", CONTENTS[1])],
+                [("addfile", odd, "ok", CONTENTS[1]), ("remove", odd)], [("addfile", "i0", "ok", CONTENTS[0]), ("addfile", odd, "ok", CONTENTS[1]), ("validate",)],
+                [("addfile", odd, "ok", CONTENTS[1]), ("add", "i0", CONTENTS[2]), ("remove", "i0"), ("validate",)]]:
+        cases.append({"name": f"nc{k}", "ops": seq})
+        k += 1
     # short random histories over the small pool (same key under several ids, same id changing kind), validate in between
     for i in range(700 if tier == "quick" else 10000):
         ops = []
@@ -312,7 +330,7 @@ def gen_C12(rng, tier):
             elif r < 0.9:
                 ops.append(("validate",))
             elif r < 0.95:
-                ops.append(("addfile", rng.choice(ids), "ok", rng.choice(CONTENTS + [BOM_FILE])))
+                ops.append(("addfile", rng.choice(ids + ["sub/../i0", "sub/../sub/../i1"]), "ok", rng.choice(CONTENTS + [BOM_FILE])))
             else:
                 ops.append(("addfile", rng.choice(ids), "bad", b"\xff\xfe"))
         cases.append({"name": f"sp{i}", "ops": ops})
@@ -346,6 +364,14 @@ def gen_C12(rng, tier):
 def gen_C13(rng, tier):
     """pairs <k>_base / <k>_pN: the same target file `t` in two projects that agree on the facts t imports"""
     cases = []
+    # the target forward-declares (with a package path) or merely names what an unrelated file defines; it imports nothing
+    fx = [("package p; parcelable q.Foo; interface I { void f(in Foo a, in q.Foo b, in List<Foo> c); }", "package q; parcelable Foo {}"),
+          ("package p; parcelable q.Foo; parcelable P { Foo a; q.Foo b; }", "package q; enum Foo { A }"),
+          ("package p; parcelable Foo; interface I { void f(in Foo a); }", "package p; interface Foo {}"),
+          ("package p; import ext.model.Blob; interface I { void f(Blob b); }", "package app.util; parcelable ext.model.Blob; interface IOther { void g(); }")]
+    for j, (t, other) in enumerate(fx):
+        cases.append(nm(f"fx{j}_base", [("t", t)]))
+        cases.append(nm(f"fx{j}_p0", [("t", t), ("o", other)]))
     n = 250 if tier == "quick" else 3000
     for i in range(n):
         fs = gen.gen_project(rng)
@@ -611,7 +637,7 @@ def gen_known_malformed(rng, n):
     for i in range(n):
         d = gen.gen_doc(rng, opts={"pdoc": 0.0, "nmembers": rng.choice([1, 2, 3])})
         toks = [t.text for t in gen.tokens(d)]
-        fam = rng.choice(["kwname", "nopackage", "twoitems", "trailing", "kwmember", "kwpackage", "uniident", "uniident", "dotvalue"])
+        fam = rng.choice(["kwname", "nopackage", "twoitems", "trailing", "kwmember", "kwpackage", "uniident", "uniident", "dotvalue", "bracevalue"])
         if fam == "kwname":
             k = toks.index("{") - 1
             toks[k] = rng.choice(kw)
@@ -630,6 +656,14 @@ def gen_known_malformed(rng, n):
             toks = toks[:k + 1] + ["const", "int", "BADV", "="] + bad + [";"] + toks[k + 1:]
             if "enum" in toks[:k]:
                 continue
+        elif fam == "bracevalue":
+            # `{ v+ (, v)* ,? }`: once a comma has been used every further element needs one; `{,}`, `{1,,2}`, a leading comma are no lists
+            k = toks.index("{")
+            bad = rng.choice([["{", "1", ",", "2", "3", "}"], ["{", "1", ",", "2", ",", "3", "4", "}"], ["{", '"a"', ",", '"b"', '"c"', "}"],
+                              ["{", "{", "1", ",", "2", "3", "}", "}"], ["{", ",", "}"], ["{", "1", ",", ",", "2", "}"], ["{", ",", "1", "}"]])
+            if "enum" in toks[:k]:
+                continue
+            toks = toks[:k + 1] + ["const", "int", "BADV", "="] + bad + [";"] + toks[k + 1:]
         elif fam == "uniident":
             # a letter, digit or mark outside ASCII glued to an identifier (item, member, argument, type, package segment ...):
             # identifiers are ASCII, so the document is lexically malformed
